@@ -79,11 +79,14 @@ def apply_mutant(scratch, m):
     path = os.path.join(scratch, "svgelements", "svgelements.py")
     with open(path) as f:
         src = f.read()
-    n = src.count(m["old"])
-    if n != 1:
-        return False, "pattern occurs %d times" % n
+    edits = [(m["old"], m["new"])] + [(e["old"], e["new"]) for e in m.get("more", [])]
+    for old, new in edits:
+        n = src.count(old)
+        if n != 1:
+            return False, "pattern occurs %d times" % n
+        src = src.replace(old, new)
     with open(path, "w") as f:
-        f.write(src.replace(m["old"], m["new"]))
+        f.write(src)
     return True, ""
 
 
